@@ -10,7 +10,7 @@ from hypothesis import strategies as st
 
 from .. import gen_timing as G
 from ..core import Verdict, Violation
-from ..model_timing import TAG_NAMES, TICK, Model, simfile_text
+from ..model_timing import TAG_NAMES, TICK, Model, simfile_text, timing_data
 
 ID = "C11"
 LEVEL = "exploration"
@@ -43,8 +43,7 @@ def build_engine(tl):
     from simfile.timing import TimingData
     from simfile.timing.engine import TimingEngine
 
-    sim = SSCSimfile(string=simfile_text(tl))
-    return TimingEngine(TimingData(sim))
+    return TimingEngine(timing_data(tl))
 
 
 def frac_beat(fr):
@@ -135,7 +134,7 @@ def reuse_clause(tl, tags, rank):
 
     n = 0
     for mode in ("replace", "append"):
-        td = TimingData(SSCSimfile(string=simfile_text(tl)))
+        td = timing_data(tl)
         first = TimingEngine(td)
         first.time_at(Beat(1))
         tl_b = edit_in_place(tl, td, mode)
@@ -168,7 +167,7 @@ def check(case):
     m = Model(tl)
     eng = build_engine(tl)
     extra = [F(n, d) for n, d in case.get("extra", [])]
-    probes = m.probe_beats(extra)
+    probes = m.probe_beats(extra, offgrid=True)
     tags = [EventTag[n] for n in TAG_NAMES]  # documented order; the model's tag number is the position in it
     rank = {t: i for i, t in enumerate(tags)}
     evals = 0
@@ -256,7 +255,7 @@ def check(case):
     evals += reuse_clause(tl, tags, rank)
 
     labs = sorted(m.coincidences())
-    return Verdict(nontrivial=bool(labs), labels=labs + (["redundant-bpm"] if ins else []), evals=evals, key=tl)
+    return Verdict(nontrivial=bool(labs), labels=labs + (["redundant-bpm"] if ins else []) + ["source:" + (tl.get("source") or "ssc")], evals=evals, key=tl)
 
 
 # -----------------------------------------------------------------------------------------
